@@ -94,6 +94,7 @@ type FuncSpec struct {
 	Effects   []GhostEffect // ghost assignments executed at exit (history variables)
 	Relies      []RelyClause // interference invariants re-assumed after a blocking call returns
 	Befores     []RelyClause // call-site obligations: must hold whenever the named callee is called
+	Resets      []string     // atomics (Struct.field) this function may reset outside their rely/guarantee relation
 	Unreachable []string    // return sites declared dead under the contract assumptions (must be vacuous)
 	PanicEns  []Clause // ensures that must hold if the function panics out (rare)
 	Modifies  []string
@@ -602,7 +603,7 @@ var clauseKeywords = map[string]bool{
 	"func": true, "iface": true, "field": true, "extern": true, "pure": true, "predicate": true, "ghost": true, "axiom": true,
 	"lockinv": true, "protected": true, "chaninv": true, "atomic": true,
 	"requires": true, "ensures": true, "defines": true, "assumes": true, "modifies": true, "decreases": true, "loop": true, "invariant": true,
-	"effect": true, "unreachable": true, "rely": true, "before": true, "inline": true, "maypanic": true, "nopanic": true, "trusted": true, "stepinv": true, "props": true, "function": true,
+	"effect": true, "unreachable": true, "rely": true, "before": true, "resets": true, "inline": true, "maypanic": true, "nopanic": true, "trusted": true, "stepinv": true, "props": true, "function": true,
 }
 
 type rawLine struct {
@@ -732,6 +733,14 @@ func parseSpecFile(path, pkg string) (*SpecFile, error) {
 				return nil, fail(l, "%v", err)
 			}
 			cur.Relies = append(cur.Relies, RelyClause{Callee: strings.TrimSpace(r[:k]), Clause: Clause{Name: "rely", Expr: e, Src: r, File: base, Line: l.line}})
+		case "resets":
+			// resets Struct.field -- reason : this function deliberately (re)initialises the atomic and is
+			// exempt from the rely/guarantee relation declared on it (it is not one of the concurrent writers
+			// the relation is about)
+			if cur == nil {
+				return nil, fail(l, "resets outside func")
+			}
+			cur.Resets = append(cur.Resets, strings.TrimSpace(rest))
 		case "before":
 			// before Callee [tags] name: expr  -- call-site obligation: expr holds whenever the function
 			// under contract calls Callee (ordering properties such as "stored before announced")
